@@ -64,7 +64,7 @@ func c14One(drv *core.Driver, cs c14Case) (string, string, *core.Outcome) {
 	if cmd == "portfolio" || cmd == "check" && len(cs.Args) > 1 && cs.Args[1] == "--write" {
 		cmd += "_" + strings.TrimPrefix(cs.Args[1], "--")
 	}
-	ctx := fmt.Sprintf("\ncommand: knut %s\nfiles: %q", strings.Join(cs.Args, " "), cs.Files)
+	ctx := fmt.Sprintf("\ncommand: knut %s\nfiles: %s", strings.Join(cs.Args, " "), clip(fmt.Sprintf("%q", cs.Files), 1500))
 	switch {
 	case cs.Extreme && out.Horizon:
 		return "C14:hang:" + cs.Class, "the command was still running after 20 s (a run with ordinary flag values takes < 20 ms)" + ctx, out
@@ -89,7 +89,7 @@ func c14One(drv *core.Driver, cs c14Case) (string, string, *core.Outcome) {
 	if cs.WantOK && out.Exit != 0 {
 		return "C14:spurious-failure:" + cs.Class + ":" + cmd, "exit " + fmt.Sprint(out.Exit) + ": " + out.Stderr + ctx, out
 	}
-	if out.MaxLive > 64 {
+	if out.MaxLive > 64+2*len(cs.Files) { // the loader uses one goroutine per file
 		return "C14:goroutine-blowup:" + cs.Class, fmt.Sprintf("%d goroutines alive at once", out.MaxLive) + ctx, out
 	}
 	return "", "", out
@@ -270,6 +270,24 @@ func c14Run(e *core.Env) {
 			// the training file of infer is loaded through the recursive loader as well
 			if cmd[0] == "infer" {
 				try(c14Case{Files: map[string]string{"j.knut": c14Valid, "train.knut": text}, Dirs: cs.Dirs, Args: withFile(cmd, "j.knut"), Class: "semantic-training-" + name}, true)
+			}
+		}
+	}
+	// (ii-b) wide include trees: a root that includes w files each of which includes one
+	// more file (2w+1 files), valid or with an error planted in the last leaf
+	for _, w := range []int{10, 40, 70} {
+		for _, errKind := range []string{"", "2020-01-09 opn Assets:X\n", "2020-02-30 open Assets:X\n"} {
+			files := map[string]string{}
+			var rb strings.Builder
+			for i := 0; i < w; i++ {
+				fmt.Fprintf(&rb, "include \"m%02d.knut\"\n", i)
+				files[fmt.Sprintf("m%02d.knut", i)] = fmt.Sprintf("2020-01-02 price USD 0.9%d CHF\ninclude \"l%02d.knut\"\n", i%10, i)
+				files[fmt.Sprintf("l%02d.knut", i)] = fmt.Sprintf("2020-01-03 price EUR 1.1%d CHF\n", i%10)
+			}
+			files[fmt.Sprintf("l%02d.knut", w-1)] += errKind
+			files["f0.knut"] = rb.String()
+			for _, cmd := range [][]string{{"check"}, {"print"}, {"balance", "--color=false"}} {
+				try(c14Case{Files: files, Args: withFile(cmd, "f0.knut"), Class: "include-wide", WantOK: errKind == "", WantFail: errKind != ""}, true)
 			}
 		}
 	}
